@@ -118,12 +118,3 @@ def register_executor_callees(reg):
              'PhaseRecord.start_time_millis', 'PhaseRecord.options', 'PhaseRecord.measurements', 'PhaseRecord.subtest_name')
   c.trusted('verified separately (C05 units); here only its contract is used')
 
-  c = reg.contract(PL, 'PlugManager.tear_down_plugs', props=['C08'])
-  c.modifies('PlugManager._plugs_by_type', 'PlugManager._plugs_by_name', 'dict')
-  c.trusted('verified separately (C08 units): plug tearDown never touches the test record or the executor')
-
-  c = reg.contract(PL, 'PlugManager.initialize_plugs', props=['C08'])
-  c.param('plug_types', 'opt:list')
-  c.raises('Exception')
-  c.modifies('PlugManager._plugs_by_type', 'PlugManager._plugs_by_name', 'dict')
-  c.trusted('verified separately (C08 units)')
